@@ -63,14 +63,16 @@ def sel_code(pos, form, dim, n):
 
 
 def extract(t, tag):
+    """shape and element access on the result Value without loops (no collect): `rows`, `cols`, and closure `rd(k)` = k-th element
+    in column-major order"""
     var = TY_VARIANT[t]
-    return ("let (rows, cols, data): (usize, usize, Vec<%s>) = match &v { Value::%s(o) => (1, 1, vec![o.borrow().clone()]), "
-            "Value::Matrix%s(m) => match m { "
-            "Matrix::DVector(o) => { let o = o.borrow(); (o.nrows(), o.ncols(), o.iter().cloned().collect()) }, "
-            "Matrix::RowDVector(o) => { let o = o.borrow(); (o.nrows(), o.ncols(), o.iter().cloned().collect()) }, "
-            "Matrix::DMatrix(o) => { let o = o.borrow(); (o.nrows(), o.ncols(), o.iter().cloned().collect()) }, "
-            "_ => { assert!(false, \"VP:wrong-result-kind\"); (0, 0, Vec::new()) } }, "
-            "_ => { assert!(false, \"VP:wrong-result-kind\"); (0, 0, Vec::new()) } };" % (t, var, var))
+    return ("let (rows, cols): (usize, usize) = match &v { Value::%s(_) => (1, 1), Value::Matrix%s(m) => match m { "
+            "Matrix::DVector(o) => { let o = o.borrow(); (o.nrows(), o.ncols()) }, Matrix::RowDVector(o) => { let o = o.borrow(); (o.nrows(), o.ncols()) }, "
+            "Matrix::DMatrix(o) => { let o = o.borrow(); (o.nrows(), o.ncols()) }, _ => { assert!(false, \"VP:wrong-result-kind\"); (0, 0) } }, "
+            "_ => { assert!(false, \"VP:wrong-result-kind\"); (0, 0) } };\n    "
+            "let rd = |k: usize| -> %s { match &v { Value::%s(o) => o.borrow().clone(), Value::Matrix%s(m) => match m { "
+            "Matrix::DVector(o) => o.borrow()[k].clone(), Matrix::RowDVector(o) => o.borrow()[k].clone(), Matrix::DMatrix(o) => o.borrow()[k].clone(), "
+            "_ => %s }, _ => %s } };" % (var, var, t, var, var, default_of(t), default_of(t)))
 
 
 def gen(t, sform, shape, forms, lens, domain, tier):
@@ -104,19 +106,22 @@ def gen(t, sform, shape, forms, lens, domain, tier):
                 b.append("    assert!(rows == %d && cols == 1, \"VP:wrong-shape\");" % N)
             else:
                 b.append("    assert!((rows == n0 && cols == 1) || (rows == 1 && cols == n0), \"VP:wrong-shape\");")
-            b.append("    assert!(data.len() == n0, \"VP:wrong-length\");")
-            b.append("    let mut k = 0; let mut ok = true; while k < data.len() && k < %d { if !%s { ok = false; } k += 1; }"
-                     % (MAXSEL, eq_expr(t, "data[k]", "src[sel0[k]]")))
+            b.append("    assert!(rows * cols == n0, \"VP:wrong-length\");")
+            b.append("    let mut ok = true;")
+            for k in range(MAXSEL):
+                b.append("    if %d < n0 && %d < rows * cols { let got = rd(%d); let want = src[sel0[%d]].clone(); if !%s { ok = false; } }"
+                         % (k, k, k, k, eq_expr(t, "got", "want")))
         else:
             b.append("    assert!(rows == n0 && cols == n1, \"VP:wrong-shape\");")
-            b.append("    assert!(data.len() == n0 * n1, \"VP:wrong-length\");")
-            b.append("    let mut ok = true; let mut c = 0; while c < n1 && c < %d { let mut r = 0; while r < n0 && r < %d { "
-                     "let got = &data[r + c * n0]; let want = &src[sel0[r] + sel1[c] * %d]; if !%s { ok = false; } r += 1; } c += 1; }"
-                     % (MAXSEL, MAXSEL, R, eq_expr(t, "(*got)", "(*want)")))
+            b.append("    let mut ok = true;")
+            for c_ in range(MAXSEL):
+                for r_ in range(MAXSEL):
+                    b.append("    if %d < n0 && %d < n1 && rows == n0 && cols == n1 { let got = rd(%d + %d * n0); let want = src[sel0[%d] + sel1[%d] * %d].clone(); if !%s { ok = false; } }"
+                             % (r_, c_, r_, c_, r_, c_, R, eq_expr(t, "got", "want")))
         b.append("    assert!(ok, \"VP:wrong-element\");")
         b.append("    { let s = sc.borrow(); assert!(%s, \"VP:source-modified\"); }" % " && ".join(eq_expr(t, "s[%d]" % q, "src[%d]" % q) for q in range(N)))
         b.append("    kani::cover!(true, \"VP:reached\");")
-        b.append("    forget(data); forget(v); forget(f);")
+        b.append("    forget(v); forget(f);")
         b.append("  }")
         b.append("}")
     else:
@@ -143,7 +148,7 @@ def gen(t, sform, shape, forms, lens, domain, tier):
                      "Access* struct solve/out via dyn MechFunction (access_* kernel macros)"],
           bounds="source %dx%d, all element values; index values: all usize; index vectors / masks of length %s"
                  % (R, C, ",".join(str(n) for f, n in zip(forms, lens) if f in "VB") or "-"),
-          unwind=max(N, MAXSEL, max(lens)) + 3, tier=tier, group=fxn, solver="kissat")
+          unwind=max([1] + [n for f_, n in zip(forms, lens) if f_ in "VB"] + [d for f_, d in zip(forms, dims) if f_ == "A"]) + 2, tier=tier, group=fxn, solver="kissat")
     h.slice = slice_for(t)
     h.heavy = True
     h.stub_kind = True
@@ -160,6 +165,7 @@ def plan(tier, seed):
         hs.append(gen(t, sform, shape, ("S",), (0,), "accept", "quick"))
         hs.append(gen(t, sform, shape, ("S",), (0,), "reject", "quick"))
         hs.append(gen(t, sform, shape, ("V",), (2,), "accept", q))
+        hs.append(gen(t, sform, shape, ("V",), (1,), "accept", "thorough"))
         hs.append(gen(t, sform, shape, ("V",), (2,), "reject", q))
         hs.append(gen(t, sform, shape, ("B",), (N,), "accept", q))
         hs.append(gen(t, sform, shape, ("B",), (N + 1,), "reject", q))
